@@ -357,6 +357,13 @@ class C16(CheckBase):
         loaded_pkg: dict[str, object] = {}
 
         # ---- model ----------------------------------------------------------
+        def broken(v, fmt) -> bool:
+            """Does this version fail to compile?  Asked of an independent
+            instance (a 'text' template whose body starts with '<' is parsed
+            as markup, so the flavour alone does not tell)."""
+            r_ = self.ref_render(world, v, None, "names", None, fmt)
+            return r_[0] == "exc" and r_[1] not in ("KeyError",)
+
         def mtime_of(p):
             e = fsm.get(p)
             return e[1] / NS if e is not None else 0
@@ -388,7 +395,7 @@ class C16(CheckBase):
                 if cur is None:
                     return None, "OSError"
                 ob.compiles += 1
-                if cur[0]["flavour"] in BROKEN and ob.fmt != "text":
+                if broken(cur[0], ob.fmt):
                     return None, "TemplateError"
                 ob.version = cur[0]
                 ob.ever_cooked = True
@@ -529,7 +536,7 @@ class C16(CheckBase):
             if cur is not None and cur[0] not in versions:
                 versions.append(cur[0])
             for v in versions:
-                if v["flavour"] in BROKEN and ob.fmt != "text":
+                if broken(v, ob.fmt):
                     wants.append(["exc", "TemplateError"])
                 else:
                     wants.append(self.ref_render(world, v, None, what, arg,
@@ -545,8 +552,7 @@ class C16(CheckBase):
                 cover.add("recovered-after-fault")
                 ob.tainted = False
                 ob.seen = m
-                ob.version = None if (cur[0]["flavour"] in BROKEN and
-                                      ob.fmt != "text") else cur[0]
+                ob.version = None if broken(cur[0], ob.fmt) else cur[0]
                 ob.ever_cooked = True
                 ob.children.clear()
                 ob.compiles = counting.get(id(ob.real), 0)
